@@ -191,6 +191,10 @@ def check_memory(ctx, bs, mult, scratch, case_ref, shape):
     p = Path(scratch) / "big.fa"
     line = (b"ACGTTGCAAC" * 6) if shape != "one-line" else None
     with p.open("wb") as fh:
+        if shape == "after-short-record":
+            # a 1-bp contig (a one-residue line) ahead of the chromosome: nothing learnt from one record's
+            # line width may govern how much of the next is held
+            fh.write(b">tiny\nA\n>two\nAC\nGT\n")
         fh.write(b">big\n")
         if line:
             full, rem = divmod(L, 60)
@@ -306,7 +310,7 @@ def replay(case, ctx):
 def plan(tier, seed):
     n, per = (10, 60) if tier == "quick" else (12, 4000)
     sh = [{"kind": "diff", "n": per} for _ in range(n)]
-    mem = [(4096, 400, "wrapped"), (50000, 400, "wrapped"), (4096, 300, "n-run"), (20000, 330, "wrapped")]
+    mem = [(4096, 400, "wrapped"), (50000, 400, "wrapped"), (4096, 300, "n-run"), (20000, 330, "wrapped"), (4096, 350, "after-short-record")]
     if tier == "thorough":
         mem += [(1000, 400, "wrapped"), (250000, 300, "wrapped"), (50000, 300, "wrapped"), (20000, 350, "wrapped"), (8192, 1000, "wrapped")]
     sh += [{"kind": "mem", "cases": [m]} for m in mem]
@@ -324,7 +328,7 @@ def gates(c, tier):
         "io:chunks:rev_chunks": 2000,
         "io:chunks:get_gap_iter": 2000,
         "io:full-chunks": 1000,
-        "mem:indexing": 4,
+        "mem:indexing": 5,
         "mem:indexing-via-FastaIndex": 4,
         "mem:stream-forward": 4,
         "mem:stream-reverse": 4,
